@@ -101,6 +101,9 @@ func (f *fatePlan) decide(d *simnet.Datagram) simnet.Fate {
 	defer f.mu.Unlock()
 	w := f.w
 	ns := &w.Spec.Net
+	if w.Tap.foreignAddr(d.Src) && w.Tap.foreignAddr(d.Dst) {
+		return simnet.Fate{} // not mieru traffic: the fault plan is about the proxy transport
+	}
 	ci := f.clientOfFlow(d.Flow)
 	seg := w.Tap.peek(d)
 	now := w.nowUs()
